@@ -26,6 +26,15 @@ func setupC11Hub(x *Ctx) {
 	r.eth.Delay = func() time.Duration {
 		return time.Duration(x.S.ChooseBiased("mdns-delay", 3, 0.6)) * 200 * time.Millisecond
 	}
+	if x.Chance("cut-at-register", 0.12) {
+		k := 1 + x.Choose("cut-at-register-k", 4)
+		r.atRegister = func(node string, n int) {
+			if n == k {
+				x.Probe("cut-at-register")
+				r.cutNewest(node)
+			}
+		}
+	}
 	n := 1 + x.Choose("causes", 4)
 	var causes []string
 	var gaps []time.Duration
